@@ -104,8 +104,70 @@ def run(name, tier="quick", props=None):
     return results
 
 
+def prun_one(arg):
+    """like run(), but in a scratch worktree of /repo (VERIF_REPO) with its own output dir, so that /repo stays
+    untouched and several seeds can be evaluated at the same time"""
+    name, tier = arg
+    d = os.path.join(V, "seeded", name)
+    meta = json.load(open(os.path.join(d, "meta.json")))
+    props = [meta["property"]] if meta.get("property") else [f"C{k:02d}" for k in range(1, 21)]
+    wt = f"/tmp/seedwt/{name}"
+    out_dir = f"/tmp/seedout/{name}"
+    sh(f"git -C /repo worktree remove --force {wt}")
+    os.makedirs("/tmp/seedwt", exist_ok=True)
+    os.makedirs(out_dir, exist_ok=True)
+    rc, out = sh(f"git -C /repo worktree add -q --detach {wt} HEAD")
+    assert rc == 0, out
+    results = {}
+    try:
+        rc, out = sh(f"git apply {d}/patch.diff", cwd=wt)
+        if rc != 0:
+            return name, {"apply_failed": out.strip()[:200]}
+        for p in props:
+            t0 = time.time()
+            rc, out = sh(f"./check {p} --tier {tier}", cwd=V, env={"VERIF_REPO": wt, "VERIF_OUT": out_dir}, timeout=4 * 3600)
+            viol = [l for l in out.splitlines() if l.startswith("VIOLATION")]
+            results[p] = {"rc": rc, "violations": [v.split("clause=")[-1] for v in viol][:6], "wall_s": round(time.time() - t0, 1)}
+            if rc == 2:
+                results[p]["machinery"] = out.strip().splitlines()[-5:]
+    finally:
+        sh(f"git -C /repo worktree remove --force {wt}")
+        shutil.rmtree(out_dir, ignore_errors=True)
+    return name, results
+
+
+def prun(tier, jobs, names):
+    from concurrent.futures import ThreadPoolExecutor
+
+    names = names or sorted(n for n in os.listdir(os.path.join(V, "seeded")) if os.path.exists(os.path.join(V, "seeded", n, "meta.json")))
+    bad = 0
+    with ThreadPoolExecutor(jobs) as ex:
+        for name, results in ex.map(prun_one, [(n, tier) for n in names]):
+            mp = os.path.join(V, "seeded", name, "meta.json")
+            meta = json.load(open(mp))
+            benign = not meta.get("property")
+            line = []
+            for p, r in results.items():
+                if not isinstance(r, dict) or "rc" not in r:
+                    line.append(f"{p}={r}")
+                    bad += 1
+                    continue
+                meta.setdefault("detected_by", {})[f"{p}:{tier}"] = r
+                expected = 0 if benign else 1
+                if r["rc"] != expected:
+                    bad += 1
+                if not benign or r["rc"] != 0:
+                    line.append(f"{p} rc={r['rc']} {r['violations'][:2]} {r['wall_s']}s")
+            json.dump(meta, open(mp, "w"), indent=1)
+            print(f"{name}: " + ("; ".join(line) if line else "silent on all 20"), flush=True)
+    print(f"UNEXPECTED: {bad}")
+    return 1 if bad else 0
+
+
 if __name__ == "__main__":
     cmd = sys.argv[1]
+    if cmd == "prun":
+        sys.exit(prun(sys.argv[2], int(sys.argv[3]), sys.argv[4:]))
     if cmd == "confirm":
         sys.exit(confirm(*sys.argv[2:5]))
     elif cmd == "run":
